@@ -468,6 +468,25 @@ pub fn any_clock(ylo: i32, yhi: i32) -> (i32, u32, u32, u32, u32, u32, u32) {
     (y, m, d, h, mi, s, us)
 }
 
+/// Sets the stubbed clock to the given concrete local date at 12:34:56.789012. Seven inputs are
+/// still drawn (and pinned by the assumption) so that the native replay finds the clock in the
+/// first seven inputs of a counterexample, as with `any_clock`.
+pub fn pinned_clock(py: i32, pm: u32, pd: u32) -> (i32, u32, u32, u32, u32, u32, u32) {
+    let y: i32 = kani::any();
+    let m: u32 = kani::any();
+    let d: u32 = kani::any();
+    let h: u32 = kani::any();
+    let mi: u32 = kani::any();
+    let s: u32 = kani::any();
+    let us: u32 = kani::any();
+    kani::assume(y == py && m == pm && d == pd && h == 12 && mi == 34 && s == 56 && us == 789_012);
+    unsafe {
+        CLOCK = (py, pm, pd, 12, 34, 56, 789_012);
+        CLOCK_READS = 0;
+    }
+    (py, pm, pd, 12, 34, 56, 789_012)
+}
+
 pub fn clock_reads() -> u32 {
     unsafe { CLOCK_READS }
 }
